@@ -399,7 +399,7 @@ func (e *Engine) discharge(tmo int) {
 	}
 	sem := make(chan struct{}, par)
 	// global budget: a run whose proofs start timing out (a changed tree) must still end in bounded time
-	budget := 240 * time.Second
+	budget := 600 * time.Second // (a quick run on an idle machine needs a sixth of this; the margin is for a loaded one)
 	if tier == "thorough" {
 		budget = 40 * time.Minute
 	}
